@@ -112,7 +112,12 @@ func cmdFn(args []string) int {
 	fmt.Printf("loaded in %.1fs\n", time.Since(t0).Seconds())
 	bad := 0
 	for _, name := range fs.Args() {
-		res := P.verifyFn(name, *sweep)
+		var res *FnResult
+		if strings.HasSuffix(name, ":lemmas") {
+			res = P.verifyLemmas(strings.TrimSuffix(name, ":lemmas"))
+		} else {
+			res = P.verifyFn(name, *sweep)
+		}
 		if res.Err != "" {
 			fmt.Printf("%s: TOOL ERROR: %s\n", name, res.Err)
 			bad++
